@@ -85,6 +85,18 @@ def restore(sk, cap, skip=()):
             del d[name]
 
 
+def alias_groups(work, skip=()):
+    """Arrays of DIFFERENT fields/objects of the system that start at the same
+    address (one ndarray object, or two views of one buffer): shared mutable
+    state between sketches.  Returned as a sorted tuple of groups of (index, field)."""
+    seen = {}
+    for i, w in enumerate(work):
+        for name, v in w.__dict__.items():
+            if isinstance(v, np.ndarray) and v.size and name not in SKIP_ALWAYS and name not in skip:
+                seen.setdefault(v.__array_interface__["data"][0], []).append((i, name))
+    return tuple(sorted(tuple(g) for g in seen.values() if len(g) > 1))
+
+
 class E1:
     skip = ()  # fields excluded from capture (per check, argued there)
     name = "e1"
@@ -115,9 +127,26 @@ class E1:
     def cap_all(self, work):
         return tuple(capture(w, self.skip) for w in work)
 
-    def res_all(self, work, caps):
+    def res_all(self, work, caps, aliases=()):
+        self._unshare(work)
         for w, c in zip(work, caps):
             restore(w, c, self.skip)
+        self._reshare(work, aliases)
+
+    def _unshare(self, work):
+        """Break every array sharing among the live objects (a previous transition
+        may have created it) so that restoring one object cannot write into another."""
+        for g in alias_groups(work, self.skip):
+            for i, name in g[1:]:
+                work[i].__dict__[name] = work[i].__dict__[name].copy()
+
+    @staticmethod
+    def _reshare(work, aliases):
+        """Re-establish the sharing recorded in a state."""
+        for g in aliases:
+            i0, n0 = g[0]
+            for i, name in g[1:]:
+                work[i].__dict__[name] = work[i0].__dict__[n0]
 
     def explore(self, cfg, depth, rep, time_cap=None, state_cap=None, extra_init=None):
         """BFS to `depth` (or fixpoint).  Returns a stats dict."""
@@ -125,18 +154,18 @@ class E1:
         work, model0 = self.init(cfg)
         self.cfg = cfg
         probs = self.oracle(work, model0)
-        s0 = (self.cap_all(work), model0)
+        s0 = (self.cap_all(work), model0, alias_groups(work, self.skip))
         parent = {s0: None}
         frontier = [s0]
         if extra_init:
             # further start states: each is an event list applied from the initial state
             for evs in extra_init:
-                self.res_all(work, s0[0])
+                self.res_all(work, s0[0], s0[2])
                 m = model0
                 for ev in evs:
                     m, _ = self.apply(work, m, ev)
                 self.oracle(work, m)
-                st = (self.cap_all(work), m)
+                st = (self.cap_all(work), m, alias_groups(work, self.skip))
                 if st not in parent:
                     parent[st] = ("init", list(evs))
                     frontier.append(st)
@@ -184,15 +213,32 @@ class E1:
         for d in range(1, depth + 1):
             nxt = []
             for st in frontier:
-                caps, model = st
+                caps, model, aliases = st
                 dirty = everything
+                live_alias = True  # unknown sharing among the live objects: clean up first
                 for ev in self.events(model, d):
-                    for i in dirty:
-                        restore(work[i], caps[i], self.skip)
+                    if aliases or live_alias:
+                        # shared arrays between sketches: restore everything, faithfully
+                        self.res_all(work, caps, aliases)
+                    else:
+                        for i in dirty:
+                            restore(work[i], caps[i], self.skip)
                     t = self.touched(ev)
                     t = everything if t is None else tuple(sorted(set(t)))
+                    if aliases:
+                        linked = {i for g in aliases for i, _ in g}
+                        if linked & set(t):
+                            t = tuple(sorted(set(t) | linked))
                     self._active = t
                     model2, p1 = self.apply(work, model, ev)
+                    al2 = alias_groups(work, self.skip)
+                    if al2:
+                        # an event made two sketches share an array: whatever one of them
+                        # does from now on can show up in the other
+                        linked = {i for g in al2 for i, _ in g}
+                        if linked & set(t):
+                            t = tuple(sorted(set(t) | linked))
+                            self._active = t
                     p2 = self.oracle(work, model2)
                     c2 = list(caps)
                     for i in t:
@@ -201,11 +247,12 @@ class E1:
                     p3 = self.post_oracle(work, model2) if has_post else []
                     self._active = None
                     dirty = t
+                    live_alias = bool(al2)
                     stats["transitions"] += 1
                     if p1 or p2 or p3:
                         stats["problems"] += 1
                         self._report(rep, cfg, self.path(parent, st) + [ev], p1 + p2 + p3)
-                    st2 = (caps2, model2)
+                    st2 = (caps2, model2, al2)
                     if st2 not in parent:
                         parent[st2] = (st, ev)
                         nxt.append(st2)
@@ -265,8 +312,9 @@ class E1:
             model, p1 = self.apply(work, model, ev)
             p2 = self.oracle(work, model)
             caps = self.cap_all(work)
+            al = alias_groups(work, self.skip)
             p3 = self.post_oracle(work, model)
-            self.res_all(work, caps)
+            self.res_all(work, caps, al)
             if p1 or p2 or p3:
                 return True, {"step": i + 1, "event": list(ev), "problems": (p1 + p2 + p3)[:5]}
         return False, {"steps": len(events)}
